@@ -1,11 +1,11 @@
 package chainsim
 
 import (
-	"os"
 	"crypto/ecdsa"
 	"crypto/sha256"
 	"fmt"
 	"math/big"
+	"os"
 	"sort"
 	"testing/synctest"
 
@@ -43,9 +43,9 @@ func DefaultRegime() Regime {
 	return Regime{
 		TimeToStartTx: 0, ControllerKickInBlock: 1, ConversionLockPeriod: 3, CoinbaseEpochBlocks: 8,
 		MinerDifficultyWindow: params.MinerDifficultyWindow,
-		LockupDepth:    [4]uint64{3, 5, 7, 9},
-		TrimDepths:     map[uint8]uint64{0: 2, 1: 3, 2: 4, 3: 5, 4: 6, 5: 7},
-		BlocksPerMonth: 3, LockupPrecompileStart: 0, ConversionSlipChangeBlock: 0,
+		LockupDepth:           [4]uint64{3, 5, 7, 9},
+		TrimDepths:            map[uint8]uint64{0: 2, 1: 3, 2: 4, 3: 5, 4: 6, 5: 7},
+		BlocksPerMonth:        3, LockupPrecompileStart: 0, ConversionSlipChangeBlock: 0,
 	}
 }
 
@@ -54,7 +54,7 @@ func (r Regime) Apply() (restore func()) {
 		TimeToStartTx: params.TimeToStartTx, ControllerKickInBlock: params.ControllerKickInBlock,
 		ConversionLockPeriod: params.ConversionLockPeriod, CoinbaseEpochBlocks: params.CoinbaseEpochBlocks,
 		MinerDifficultyWindow: params.MinerDifficultyWindow,
-		LockupDepth: params.LockupByteToBlockDepth, TrimDepths: types.TrimDepths, BlocksPerMonth: params.BlocksPerMonth,
+		LockupDepth:           params.LockupByteToBlockDepth, TrimDepths: types.TrimDepths, BlocksPerMonth: params.BlocksPerMonth,
 		LockupPrecompileStart: params.CoinbaseLockupPrecompileKickInHeight, ConversionSlipChangeBlock: params.ConversionSlipChangeBlock,
 	}
 	set := func(x Regime) {
@@ -150,14 +150,16 @@ type BlockInfo struct {
 }
 
 type World struct {
-	TB     simkit.TB
-	Tr     *simkit.Trace
-	Nodes  []*Node
-	Blocks map[common.Hash]*BlockInfo
-	Tips   []common.Hash // every mined block hash in mining order (index = block id)
-	Gen    common.Hash
-	outbox []netMsg
-	Nonces map[int]uint64 // next nonce per quai account the harness will use
+	// PreDeliver, when set, runs between sealing a block and handing it to the node (byzantine peer window).
+	PreDeliver func(n *Node, bi *BlockInfo, blk *types.WorkObject)
+	TB         simkit.TB
+	Tr         *simkit.Trace
+	Nodes      []*Node
+	Blocks     map[common.Hash]*BlockInfo
+	Tips       []common.Hash // every mined block hash in mining order (index = block id)
+	Gen        common.Hash
+	outbox     []netMsg
+	Nonces     map[int]uint64 // next nonce per quai account the harness will use
 }
 
 type netMsg struct {
@@ -338,6 +340,11 @@ func (w *World) Mine(n *Node, coinbase common.Address, start uint64, wantOrder i
 		w.Tr.Event("   woh seal=%x hdrhash=%x nonce=%x txhash=%x pent=%v lock=%d time=%d diff=%v ptn=%v cb=%x data=%x", wh.SealHash().Bytes()[:4], wh.HeaderHash().Bytes()[:4], wh.Nonce(), wh.TxHash().Bytes()[:4], blk.ParentEntropy(2), wh.Lock(), wh.Time(), wh.Difficulty(), wh.PrimeTerminusNumber(), wh.PrimaryCoinbase().Bytes()[:3], wh.Data())
 		w.Tr.Event("   hdr2 pde=%v,%v,%v pude=%v manifest=%x etxhash=%x etxrollup=%x uncle=%x receipt=%x exch=%v kqd=%v cfa=%v mdiff=%v interlink=%x extra=%x expn=%d elig=%x avgfee=%v totfee=%v statelimit=%d eff=%d thr=%d uent=%v psr=%x rsr=%x pth=%x", h.ParentDeltaEntropy(0), h.ParentDeltaEntropy(1), h.ParentDeltaEntropy(2), h.ParentUncledDeltaEntropyArray(), h.ManifestHashArray(), h.OutboundEtxHash().Bytes()[:4], h.EtxRollupHash().Bytes()[:4], h.UncleHash().Bytes()[:4], h.ReceiptHash().Bytes()[:4], h.ExchangeRate(), h.KQuaiDiscount(), h.ConversionFlowAmount(), h.MinerDifficulty(), h.InterlinkRootHash().Bytes()[:4], h.Extra(), h.ExpansionNumber(), h.EtxEligibleSlices().Bytes()[:4], h.AvgTxFees(), h.TotalFees(), h.StateLimit(), h.EfficiencyScore(), h.ThresholdCount(), h.UncledEntropy(), h.PrimeStateRoot().Bytes()[:4], h.RegionStateRoot().Bytes()[:4], h.PrimeTerminusHash().Bytes()[:4])
 		w.Tr.Event("   hdr evm=%x utxo=%x etxset=%x gasUsed=%d time=%d base=%v stateUsed=%d", h.EVMRoot().Bytes()[:4], h.UTXORoot().Bytes()[:4], h.EtxSetRoot().Bytes()[:4], h.GasUsed(), blk.Time(), h.BaseFee(), h.StateUsed())
+	}
+	if w.PreDeliver != nil {
+		// what a peer that saw the sealed block first can push at the node before the node processes it
+		w.PreDeliver(n, bi, blk)
+		synctest.Wait()
 	}
 	if err := w.Deliver(n, bi); err != nil {
 		return bi, err
